@@ -1,0 +1,88 @@
+//go:build verif
+
+package extendeddaemonsetsetting
+
+// Contracts read by the verification engine in /verif (govc). Comment-only file.
+//
+//@ import v1 "github.com/DataDog/extendeddaemonset/api/v1alpha1"
+//@ import corev1 "k8s.io/api/core/v1"
+//@ import metav1 "k8s.io/apimachinery/pkg/apis/meta/v1"
+//@ import labels "k8s.io/apimachinery/pkg/labels"
+//@
+//@ spec fn before(a *v1.ExtendedDaemonsetSetting, b *v1.ExtendedDaemonsetSetting) bool =
+//@     ite(a.ObjectMeta.CreationTimestamp.Time == b.ObjectMeta.CreationTimestamp.Time, a.ObjectMeta.Name > b.ObjectMeta.Name,
+//@         b.ObjectMeta.CreationTimestamp.Time < a.ObjectMeta.CreationTimestamp.Time)
+//@ spec fn selects(s *v1.ExtendedDaemonsetSetting, n *corev1.Node) bool =
+//@     snd(metav1.LabelSelectorAsSelector(&s.Spec.NodeSelector)) == nil
+//@     && fst(metav1.LabelSelectorAsSelector(&s.Spec.NodeSelector)).Matches(labels.Set(n.ObjectMeta.Labels))
+//@
+//@ func (edsNodeByCreationTimestampAndPhase).Len
+//@   transparent
+//@ func (edsNodeByCreationTimestampAndPhase).Less
+//@   transparent
+//@   requires 0 <= i && i < len(o) && 0 <= j && j < len(o) && o[i] != nil && o[j] != nil
+//@   ensures [C18] order-is-newest-first-then-name: result <==> before(o[i], o[j])
+//@
+//@ func searchPossibleConflict
+//@   requires instance != nil && nodeList != nil && edsNodeList != nil
+//@   requires unique-node-names: forall a int, b int :: 0 <= a && a < b && b < len(nodeList.Items) ==> nodeList.Items[a].ObjectMeta.Name != nodeList.Items[b].ObjectMeta.Name
+//@   modifies nothing
+//@   ensures [C18] no-error-means-no-earlier-overlap: result1 == nil ==> forall a int, s int, t int ::
+//@             0 <= a && a < len(nodeList.Items) && 0 <= s && s < len(edsNodeList.Items) && 0 <= t && t < len(edsNodeList.Items)
+//@             && edsNodeList.Items[t].ObjectMeta.Name == instance.ObjectMeta.Name && before(&edsNodeList.Items[s], &edsNodeList.Items[t])
+//@             && selects(&edsNodeList.Items[t], &nodeList.Items[a]) ==> !selects(&edsNodeList.Items[s], &nodeList.Items[a])
+//@   loop 1 invariant len(edsNodes) == iter() && (edsNodes == nil || freshroot(edsNodes))
+//@   loop 1 invariant forall k int :: 0 <= k && k < len(edsNodes) ==> edsNodes[k] == &edsNodeList.Items[k]
+//@   loop 2 invariant nodesAlreadySelected != nil && fresh(nodesAlreadySelected)
+//@   loop 2 invariant forall b int :: iter() <= b && b < len(nodeList.Items) ==> !(nodeList.Items[b].ObjectMeta.Name in nodesAlreadySelected)
+//@   loop 2 invariant [C18] forall a int, i int, j int :: 0 <= a && a < iter() && 0 <= i && i < j && j < len(edsNodes)
+//@             && edsNodes[j].ObjectMeta.Name == instance.ObjectMeta.Name && selects(edsNodes[j], &nodeList.Items[a]) ==> !selects(edsNodes[i], &nodeList.Items[a])
+//@   loop 3 invariant nodesAlreadySelected != nil && fresh(nodesAlreadySelected)
+//@   loop 3 invariant 0 <= iter(2) && iter(2) < len(nodeList.Items)
+//@   loop 3 invariant forall b int :: iter(2) < b && b < len(nodeList.Items) ==> !(nodeList.Items[b].ObjectMeta.Name in nodesAlreadySelected)
+//@   loop 3 invariant [C18] forall a int, i int, j int :: 0 <= a && a < iter(2) && 0 <= i && i < j && j < len(edsNodes)
+//@             && edsNodes[j].ObjectMeta.Name == instance.ObjectMeta.Name && selects(edsNodes[j], &nodeList.Items[a]) ==> !selects(edsNodes[i], &nodeList.Items[a])
+//@   loop 3 invariant forall i int :: 0 <= i && i < iter() && selects(edsNodes[i], &nodeList.Items[iter(2)]) ==> (nodeList.Items[iter(2)].ObjectMeta.Name in nodesAlreadySelected)
+//@   loop 3 invariant [C18] forall i int, j int :: 0 <= i && i < j && j < iter()
+//@             && edsNodes[j].ObjectMeta.Name == instance.ObjectMeta.Name && selects(edsNodes[j], &nodeList.Items[iter(2)]) ==> !selects(edsNodes[i], &nodeList.Items[iter(2)])
+//@
+//@ spec fn noEarlierOverlap(inst *v1.ExtendedDaemonsetSetting, nl *corev1.NodeList, sl *v1.ExtendedDaemonsetSettingList) bool =
+//@     forall a int, s int, t int :: 0 <= a && a < len(nl.Items) && 0 <= s && s < len(sl.Items) && 0 <= t && t < len(sl.Items)
+//@         && sl.Items[t].ObjectMeta.Name == inst.ObjectMeta.Name && before(&sl.Items[s], &sl.Items[t])
+//@         && selects(&sl.Items[t], &nl.Items[a]) ==> !selects(&sl.Items[s], &nl.Items[a])
+//@
+//@ func (*Reconciler).updateExtendedDaemonsetSetting
+//@   logs
+//@   requires r != nil && r.client != nil && edsNode != nil && newStatus != nil
+//@   modifies nothing
+//@   ensures [C11,C18] at-most-one-call-and-it-is-a-status-write: loglen() <= old(loglen()) + 1 && (forall k int :: lognew(k) ==> logverb(k) == "StatusUpdate")
+//@   ensures [C18] writes-the-given-status-of-the-given-object: forall k int :: lognew(k) ==> cast(logsent(k), "*v1.ExtendedDaemonsetSetting").Status.Status == newStatus.Status && cast(logsent(k), "*v1.ExtendedDaemonsetSetting").Status.Error == newStatus.Error
+//@             && cast(logsent(k), "*v1.ExtendedDaemonsetSetting").ObjectMeta.Name == edsNode.ObjectMeta.Name && cast(logsent(k), "*v1.ExtendedDaemonsetSetting").ObjectMeta.Namespace == edsNode.ObjectMeta.Namespace && shapeeq(cast(logsent(k), "*v1.ExtendedDaemonsetSetting").Spec, edsNode.Spec)
+//@
+//@ func (*Reconciler).Reconcile
+//@   logs
+//@   requires r != nil && r.client != nil
+//@   requires namespaced-kind: request.NamespacedName.Namespace != ""
+//@   modifies nothing
+//@   let n0 = old(loglen())
+//@   let I = cast(logobj(n0), "*v1.ExtendedDaemonsetSetting")
+//@   let SL = cast(logobj(n0 + 1), "*v1.ExtendedDaemonsetSettingList")
+//@   let NL = cast(logobj(n0 + 2), "*corev1.NodeList")
+//@   ensures [C11,C18] reads-then-at-most-one-status-write: loglen() > n0 && logverb(n0) == "Get" && (forall k int :: lognew(k) && k > n0 ==>
+//@             (k <= n0 + 2 && logverb(k) == "List") || (logverb(k) == "StatusUpdate" && k == loglen() - 1))
+//@   ensures [C12,C18] settings-are-listed-in-the-own-namespace: loglen() > n0 + 1 && logverb(n0 + 1) == "List" ==> lognamespaced(n0 + 1) && logns(n0 + 1) == I.ObjectMeta.Namespace
+//@   ensures [C18] missing-reference-is-an-error: forall k int :: lognew(k) && logverb(k) == "StatusUpdate" && (I.Spec.Reference == nil || I.Spec.Reference.Name == "") ==> cast(logsent(k), "*v1.ExtendedDaemonsetSetting").Status.Status == "error"
+//@   ensures [C18] valid-only-with-a-reference: forall k int :: lognew(k) && logverb(k) == "StatusUpdate" && k == n0 + 3 && cast(logsent(k), "*v1.ExtendedDaemonsetSetting").Status.Status == "valid" ==>
+//@             I.Spec.Reference != nil && I.Spec.Reference.Name != "" && cast(logsent(k), "*v1.ExtendedDaemonsetSetting").Status.Error == ""
+//@   ensures [C18] valid-only-without-an-earlier-overlapping-setting: forall k int :: lognew(k) && logverb(k) == "StatusUpdate" && k == n0 + 3 && cast(logsent(k), "*v1.ExtendedDaemonsetSetting").Status.Status == "valid" ==>
+//@             noEarlierOverlap(I, NL, SL)
+//@   ensures [C18] only-the-status-of-the-reconciled-object-is-written: forall k int :: lognew(k) && logverb(k) == "StatusUpdate" ==>
+//@             cast(logsent(k), "*v1.ExtendedDaemonsetSetting").ObjectMeta.Name == I.ObjectMeta.Name && cast(logsent(k), "*v1.ExtendedDaemonsetSetting").ObjectMeta.Namespace == I.ObjectMeta.Namespace && shapeeq(cast(logsent(k), "*v1.ExtendedDaemonsetSetting").Spec, I.Spec)
+//@
+// Two settings of one namespace that select a common node cannot both pass the conflict search against the same lists:
+// the search result of each is noEarlierOverlap, and the order "before" is total on settings with distinct names.
+//@ lemma [C18] overlapping_settings_are_not_both_valid(nl *corev1.NodeList, sl *v1.ExtendedDaemonsetSettingList, x int, y int, n int)
+//@   requires nl != nil && sl != nil && 0 <= x && x < len(sl.Items) && 0 <= y && y < len(sl.Items) && 0 <= n && n < len(nl.Items)
+//@   requires distinct-names: forall a int, b int :: 0 <= a && a < b && b < len(sl.Items) ==> sl.Items[a].ObjectMeta.Name != sl.Items[b].ObjectMeta.Name
+//@   requires x != y && selects(&sl.Items[x], &nl.Items[n]) && selects(&sl.Items[y], &nl.Items[n])
+//@   ensures at-most-one-valid: !(noEarlierOverlap(&sl.Items[x], nl, sl) && noEarlierOverlap(&sl.Items[y], nl, sl))
